@@ -726,4 +726,74 @@ theorem C08_stochastic_ternary_codes (det p0 p1 r0 r1 : ℚ) :
   unfold stochasticTernaryCode sgn1; simp only [if_true]
   split <;> split <;> norm_num
 
+/-! ## 6. the stochastic classes against their deterministic counterparts BUILT FROM THE SAME ARGUMENTS
+
+The clause "with the training phase off the stochastic binary / ternary quantizers return exactly
+their deterministic counterparts" speaks about two objects constructed from one argument set, so it
+is stated on the constructors (`stochasticTernaryInit`, `ternaryInit`, …) and on the whole call of
+one channel, including the `number_of_unrolls` scale / threshold iteration. -/
+
+/-- the attributes `ternary.__call__` reads from a `stochastic_ternary` object are those of the
+    `ternary` object built from the same `alpha`, `threshold`, `number_of_unrolls` (flag off): every
+    constructor argument shared with the base class is forwarded -/
+theorem C08_stochastic_ternary_init (α : Alpha) (thr : Option ℚ) (T : ℚ) (rs : Bool) (n : ℕ) :
+    (stochasticTernaryInit α thr T rs n).base = ternaryInit α thr false n := rfl
+
+theorem C08_stochastic_binary_init (α : Alpha) (T : ℚ) (rs : Bool) :
+    (stochasticBinaryInit α T rs).base = binaryInit false α false := rfl
+
+/-- `ternary` without the flag does not look at the phase or at any draw (whole call, every alpha,
+    threshold and number of unrolls) -/
+theorem C08_ternary_call_deterministic (α : Alpha) (thr : Option ℚ) (n : ℕ) (phase phase' : Bool)
+    (xs : List ℚ) (d d' : List (List ℚ)) :
+    ternaryCall (ternaryInit α thr false n) phase xs d = ternaryCall (ternaryInit α thr false n) phase' xs d' := by
+  cases α <;> simp only [ternaryCall, ternaryInit]
+  all_goals
+    cases phase
+    · rw [ternLoop_infer _ false phase' xs n _ d d' []]
+    · cases phase'
+      · rw [← ternLoop_infer _ false true xs n _ d' d []]
+      · rw [← ternLoop_infer _ false true xs n _ [] d [], ← ternLoop_infer _ false true xs n _ [] d' []]
+
+/-- phase 0, `ternary(alpha="auto*", use_stochastic_rounding=True, number_of_unrolls=n)` is
+    `ternary(alpha, number_of_unrolls=n)`: the whole iteration, for every number of unrolls -/
+theorem C08_ternary_call_inference (α : Alpha) (hα : α.isAuto = true) (thr : Option ℚ) (n : ℕ)
+    (phase' : Bool) (xs : List ℚ) (d d' : List (List ℚ)) :
+    ternaryCall (ternaryInit α thr true n) false xs d = ternaryCall (ternaryInit α thr false n) phase' xs d' := by
+  cases α <;> simp [Alpha.isAuto] at hα <;> simp only [ternaryCall, ternaryInit] <;>
+    rw [ternLoop_infer _ true phase' xs n _ d d' []] <;> try rfl
+
+/-- THE LAST CLAUSE, on the constructors: for every `alpha`, `threshold`, `temperature`,
+    `use_real_sigmoid`, `number_of_unrolls`, with the training phase off
+    `stochastic_ternary(alpha, threshold, temperature, use_real_sigmoid, number_of_unrolls)(x)` is
+    `ternary(alpha, threshold, number_of_unrolls=number_of_unrolls)(x)` (which ignores phase and
+    draws) — the sampling options `temperature`, `use_real_sigmoid` are irrelevant, every other
+    argument reaches the deterministic call. -/
+theorem C08_stochastic_ternary_ctor_inference (α : Alpha) (thr : Option ℚ) (T : ℚ) (rs : Bool) (n : ℕ)
+    (xs : List ℚ) (scale : ℚ) (p0 p1 r0 r1 : List ℚ) (phase' : Bool) (d : List (List ℚ)) :
+    stochasticTernaryCall (stochasticTernaryInit α thr T rs n) false xs scale p0 p1 r0 r1
+      = ternaryCall (ternaryInit α thr false n) phase' xs d := by
+  simp only [stochasticTernaryCall, C08_stochastic_ternary_init, Bool.false_eq_true, if_false]
+  exact C08_ternary_call_deterministic α thr n false phase' xs [] d
+
+/-- the same clause for `stochastic_binary(alpha, temperature, use_real_sigmoid)` against
+    `binary(alpha=alpha)` (numeric / absent alpha: the element-wise part of the call) -/
+theorem C08_stochastic_binary_ctor_inference (α : Alpha) (T : ℚ) (rs : Bool)
+    (xs ps rr : List ℚ) (phase' : Bool) (ms u1 u2 : List ℚ) :
+    stochasticBinaryCall (stochasticBinaryInit α T rs) false xs ps rr
+      = binaryCall (binaryInit false α false) phase' xs ms u1 u2 := by
+  simp only [stochasticBinaryCall, C08_stochastic_binary_init, Bool.false_eq_true, if_false]
+  cases α <;> simp only [binaryCall, binaryInit]
+  all_goals
+    refine congrArg some (List.map_congr_left fun i _ => ?_)
+    exact binaryQ_det false false phase' _ _ _ _ _ _ _ _
+
+/-- `number_of_unrolls` is not a dead option: one and five unrolls give different outputs on the
+    channel `[1, 3/8, 3/8, 5/16]` (the threshold `scale/2` moves from `1/3` below `5/16` in the second
+    iteration), so an object that silently keeps the default 5 does NOT equal its counterpart -/
+theorem C08_ternary_unrolls_matter :
+    ternaryCall (ternaryInit .auto none false 1) false [1, 3 / 8, 3 / 8, 5 / 16] [] ≠
+    ternaryCall (ternaryInit .auto none false 5) false [1, 3 / 8, 3 / 8, 5 / 16] [] := by
+  decide +kernel
+
 end QKV.Props.C08
